@@ -421,6 +421,27 @@ fn enum_case(c: &EnumCase) -> Result<(), Fail> {
                 ensure!(tok::drops(i) == 0, "tuple-drop", "token {i} dropped {} times while still held", tok::drops(i));
             }
             drop((a, b, d));
+            // fields of different size and alignment (a Rust tuple may order them differently
+            // from the repr(C) struct: the conversion has to go field by field)
+            let m3 = (v[0] as u8, v[1], v[2] as u16);
+            let c3: CTup3<u8, u64, u16> = m3.into();
+            ensure!((c3.0, c3.1, c3.2) == m3, "tuple-payload", "CTup3<u8,u64,u16> holds {:?} for {:?}", (c3.0, c3.1, c3.2), m3);
+            let back: (u8, u64, u16) = if c.route % 2 == 0 { c3.into() } else { c3.into_tuple() };
+            ensure!(back == m3, "tuple-payload", "CTup3<u8,u64,u16> converts back to {back:?}, expected {m3:?}");
+            let m4 = (v[0] as u8, v[1] as u32, v[2] as u8, v[3]);
+            let c4: CTup4<u8, u32, u8, u64> = m4.into();
+            let back: (u8, u32, u8, u64) = if c.route % 2 == 0 { c4.into() } else { c4.into_tuple() };
+            ensure!(back == m4, "tuple-payload", "CTup4<u8,u32,u8,u64> converts back to {back:?}, expected {m4:?}");
+            let m2 = (v[3] as u16, v[0]);
+            let c2: CTup2<u16, u64> = m2.into();
+            let back: (u16, u64) = if c.route % 2 == 0 { c2.into() } else { c2.into_tuple() };
+            ensure!(back == m2, "tuple-payload", "CTup2<u16,u64> converts back to {back:?}, expected {m2:?}");
+            let t = HeapTok::new(v[1]);
+            let tid = t.id();
+            let cd: CTup3<u8, HeapTok, u16> = (v[0] as u8, t, v[2] as u16).into();
+            let (x, t, y): (u8, HeapTok, u16) = if c.route % 2 == 0 { cd.into() } else { cd.into_tuple() };
+            ensure!(x == v[0] as u8 && y == v[2] as u16 && t.id() == tid && t.val() == v[1], "tuple-payload", "CTup3<u8,token,u16> converts back to ({x}, token {}, {y})", t.id());
+            drop(t);
         }
     }
     Ok(())
@@ -505,7 +526,7 @@ pub fn run(ctx: &Ctx) -> i32 {
         ctx.run("option-result-tuple", ctx.n(10_000, 200_000), enum_strategy(), check_enum);
     }
     ctx.finish(
-        "slices: element types {u8,u64,(),3-byte struct} x every length 0..=64 (deterministic) + random lengths up to 3000, at a non-zero offset inside a larger buffer, round-tripped through every conversion of CSliceRef/CSliceMut with writes through three routes; UTF-8: ALL byte strings up to a length bound over all 256 bytes and over a 19-byte boundary alphabet (enumerated), plus random/damaged/truncated text, decision compared with a hand-written RFC 3629 validator (itself cross-checked against std); COption/CResult/CTup1-4 with droppable payloads through every conversion route. Non-trivial = non-empty slice, or invalid / non-ASCII bytes, or a droppable payload; enumerated inputs are distinct by construction",
+        "slices: element types {u8,u64,(),3-byte struct} x every length 0..=64 (deterministic) + random lengths up to 3000, at a non-zero offset inside a larger buffer, round-tripped through every conversion of CSliceRef/CSliceMut with writes through three routes; UTF-8: ALL byte strings up to a length bound over all 256 bytes and over a 19-byte boundary alphabet (enumerated), plus random/damaged/truncated text, decision compared with a hand-written RFC 3629 validator (itself cross-checked against std); COption/CResult/CTup1-4 with droppable payloads and with fields of mixed size and alignment through every conversion route. Non-trivial = non-empty slice, or invalid / non-ASCII bytes, or a droppable payload; enumerated inputs are distinct by construction",
         &["hand-written RFC 3629 validator is the UTF-8 reference (aborts the run as inconclusive if it ever disagrees with std)"],
         false,
     )
